@@ -9,6 +9,8 @@ examples can instantiate them over ℚ.  ARPACK is the parameter `solver`; its c
 `IsSingularTriplets`) is a hypothesis and is checked on every captured solver output by the `contract` lines.
 -/
 import Mathlib.Algebra.Order.Field.Rat
+import Mathlib.Analysis.Real.Sqrt
+import Mathlib.Analysis.SpecialFunctions.Pow.Real
 import Mathlib.Data.Matrix.Mul
 import Mathlib.Algebra.BigOperators.Fin
 import SkNet.Lemmas.EmbeddingSpectral
@@ -777,5 +779,60 @@ example : (louvainEmbFit 3 3 ([[0, 1, 1], [1, 0, 0], [1, 0, 0]] : Mat ℚ) [0, 0
     (fun o => (o.labels, o.embedding)) = some ([0, 0, -1], [[1/2], [1], [1]]) := by decide +kernel
 
 example : mget (louvainProject 2 3 ([[1, 1, 2], [0, 0, 0]] : Mat ℚ) [0, 1, 1]) 0 1 = 3/4 := by decide +kernel
+
+/-! ### over the reals the hypotheses on `sqrt` and `pow` hold by themselves -/
+
+section real
+
+/-- the scalar functions of the implementation's intended semantics: `np.sqrt`, `np.power` on ℝ -/
+noncomputable def Freal : Fn ℝ := ⟨Real.sqrt, fun x y => x ^ y⟩
+
+theorem real_sqrt_sq (d : ℝ) (hd : 0 ≤ d) : Freal.sqrt d * Freal.sqrt d = d := Real.mul_self_sqrt hd
+
+theorem real_pow_split (s a : ℝ) (hs : 0 < s) : Freal.pow s (1 - a) * Freal.pow s a = s ∧ Freal.pow s a ≠ 0 := by
+  constructor
+  · change s ^ (1 - a) * s ^ a = s
+    rw [← Real.rpow_add hs, sub_add_cancel, Real.rpow_one]
+  · exact ne_of_gt (Real.rpow_pos_of_pos hs a)
+
+/-- **`normalize_unit` over ℝ**, no side condition: every non-null row becomes a unit vector, null rows stay null. -/
+theorem normalize_unit_real (n k : Nat) (m : Mat ℝ) (i : Nat) (hi : i < n) :
+    ((∃ j, j < k ∧ mget m i j ≠ 0) → sqNorm k (normalize2 Freal n k m) i = 1) ∧
+    ((∀ j, j < k → mget m i j = 0) → ∀ j, mget (normalize2 Freal n k m) i j = 0) :=
+  normalize_unit Freal n k m i hi
+    (real_sqrt_sq _ (Finset.sum_nonneg fun _ _ => mul_self_nonneg _))
+
+/-- **Spectral over ℝ**: on a graph with non-negative weights the only hypothesis left is the solver contract. -/
+theorem spectral_rw_eigen_real (nRow nCol : Nat) (b : Mat ℝ) (nnz : Nat) (fb : Bool) (nc : Int) (regParam : ℝ) (nm : Bool)
+    (solver : LapOp ℝ → Mat ℝ → Nat → Vec ℝ × Mat ℝ) {out : SpectralOut ℝ}
+    (h : spectralFit Freal nRow nCol b nnz fb nc true regParam nm solver = .ok out)
+    (hnn : ∀ i j, 0 ≤ mget (spAdj nRow nCol b fb) i j)
+    (hsol : IsEigenpairs (spOp Freal nRow nCol b fb regParam true) (spAdj nRow nCol b fb)
+      (spSol Freal nRow nCol b fb nc regParam solver true).1 (spSol Freal nRow nCol b fb nc regParam solver true).2)
+    (c : Nat) (hc : c < out.eigenvalues.length) (i : Nat) (hi : i < spN nRow nCol b fb) :
+    Spec.transApply (spN nRow nCol b fb) (spAdj nRow nCol b fb) (spReg nRow nCol b fb regParam)
+        (fun j => mget out.eigenvectors j c) i
+      = vget out.eigenvalues c * mget out.eigenvectors i c :=
+  spectral_rw_eigen Freal nRow nCol b nnz fb nc regParam nm solver h
+    (fun i _ => real_sqrt_sq _ (add_nonneg (Finset.sum_nonneg fun j _ => hnn i j) (getRegularization_nonneg _ _)))
+    hsol c hc i hi
+
+/-- **GSVD / SVD over ℝ**: with positive singular values `predict(A[i]) = embedding_row_[i]` under the solver contract
+    alone. -/
+theorem gsvd_predict_row_real (nRow nCol : Nat) (a : Mat ℝ) (nnz : Nat) (p : GsvdParams ℝ)
+    (solver : SLR ℝ → Nat → Vec ℝ × Mat ℝ × Mat ℝ) {out : GsvdOut ℝ}
+    (h : gsvdFit Freal nRow nCol a nnz p solver = .ok out)
+    (hsol : IsSingularTriplets (gsOp Freal nRow nCol a p) (gsSol Freal nRow nCol a p solver).1
+      (gsSol Freal nRow nCol a p solver).2.1 (gsSol Freal nRow nCol a p solver).2.2)
+    (hpos : ∀ c, c < (gsSol Freal nRow nCol a p solver).1.length → 0 < vget (gsSol Freal nRow nCol a p solver).1 c)
+    (i : Nat) (hi : i < nRow) (nVec r : Nat) (hr : r < nVec) (x : Mat ℝ)
+    (hx : ∀ j, j < nCol → mget x r j = mget a i j) (xnnz : Nat) {e : Mat ℝ}
+    (hp : gsvdPredict Freal p nCol out.singularValues out.right out.weightsCol nVec nCol x xnnz = .ok e)
+    (c : Nat) (hc : c < out.singularValues.length) :
+    mget e r c = mget out.embeddingRow i c :=
+  gsvd_predict_row Freal nRow nCol a nnz p solver h hsol
+    (fun c hc => real_pow_split _ _ (hpos c hc)) i hi nVec r hr x hx xnnz hp c hc
+
+end real
 
 end SkNet.C09
